@@ -148,7 +148,7 @@ def sweep_cases(tier):
 
 
 def checks(tier):
-    n = {"quick": 1600, "thorough": 48000}.get(tier, 10)
+    n = {"quick": 1600, "thorough": 16000}.get(tier, 10)
     return [
         Check("class_sweep", fn_session, enum=sweep_cases),
         Check("sessions", fn_session, strategy=session.session_spec(), examples=n),
